@@ -29,6 +29,14 @@ product, also on its copies); edges that are exact similarities with an intended
 incl. a chain of 64 of them; updates that name an ancestor of the parent frame - or the frame itself -
 as the child (refused, or resolved into a forest which the model adopts; never a loop).
 
+Round 5 classes: an edge set again and again to a matrix CLOSE TO THE ONE IT HOLDS (`assign_alphabet`: graph[a] = M /
+update with the translation moved by 5e-6 of itself or the frame turned by 2e-6 rad, a frame 1e6 units out below it,
+judged by the ordinary sweeps; `jog`: the edge base->arm stepped through one route - graph[arm] = M, update by matrix
+with / without frame_from, update by axis+angle+translation, an edge list loaded into the graph,
+scene.camera_transform = M - in steps of 1e-6 .. 1e-4 of a far translation, turns of 1e-9 .. 3e-6 rad with a long lever,
+moves inside a scene modelled in units of 1e-9, and ordinary steps; every dependent answer is read after the step and
+may differ from the numpy product of the matrices last set by a tenth of what the step changed in it).
+
 What the statement leaves open is not judged: the matrix of an existing edge after an update
 that carries no transform keyword (kept or reset to identity: the model adopts whichever the
 graph did), whether `to_flattened` raises or skips when some frame is not connected to the
@@ -60,6 +68,12 @@ RULE = (
     "edge), a 7-operation alphabet of edges with an intended scale next to one on graphs built with the default "
     "repair_rigid and with repair_rigid=None, all from warm initial forests, plus chains of 64 edges; sampled "
     "histories draw the name class, the repair_rigid option and whether loop-closing updates are executed; "
+    "round 5: a 9-operation alphabet of assignments graph[a] = M / updates whose matrix is close to the stored one "
+    "(relative 5e-6 on a far translation, a 2e-6 rad turn; a frame 1e6 units out below), and jogs: the edge base->arm "
+    "stepped 3..6 times through one of 6 routes (graph[arm] = M, update matrix, update matrix with frame_from, update "
+    "axis+angle+translation, from_edgelist into the graph, scene.camera_transform) x 4 classes of step (far translation "
+    "moved by 1e-6..1e-4 of itself, turn of 1e-9..3e-6 rad with a lever of 1e4..1e7, scene in units of 1e-9, ordinary), "
+    "2 fixed plans per route x class plus sampled ones, each dependent answer judged at a tenth of the step; "
     "a full observation (all ordered pairs, listings, edge-list "
     "rebuild) follows every operation. A case is one history; distinct = distinct operation sequence "
     "(names, kwargs kinds and matrix classes); non-trivial = at least one operation changed the "
@@ -1748,6 +1762,248 @@ def deep_chain(run, k, e, kind, repair):
     return bad
 
 
+# ----------------------------------------------------------------------------
+# round 5: an edge that is set again and again to a matrix CLOSE TO THE STORED ONE (a jog)
+
+# a rotation all of whose entries are 1/3 or 2/3 in magnitude: a turn by d changes no entry by more than
+# d, i.e. by less than 1e-5 of the entry for d <= 3e-6 (no entry next to zero gives a small turn away)
+_Q = np.array([[2.0, -1.0, 2.0], [2.0, 2.0, -1.0], [-1.0, 2.0, 2.0]]) / 3.0
+
+
+def _pose(L, t):
+    M = np.eye(4)
+    M[:3, :3] = L
+    M[:3, 3] = t
+    return M
+
+
+def assign_alphabet():
+    """
+    The edge world->a assigned (`graph[a] = M`) / updated to matrices that are close to the one it holds:
+    the translation (hundreds of thousands of units out) moved by 5e-6 of itself, the frame turned by 2e-6
+    rad - every entry within 1e-5 of its stored value RELATIVELY, none within 1e-8 absolutely - with a
+    frame b hanging 1e6 units out on a, so that each of the steps moves T(world, b) by 14 .. 20 times the
+    tolerance of the monitor.  Judged like every other update: the sweep that follows compares every
+    answer with the reference forest.
+    """
+    t = np.array([2500.0, -4.0e5, 100.0])
+    P0 = _pose(_Q, t)
+    P1 = _pose(_Q, t * (1.0 + 5e-6))
+    P2 = _pose(_Q @ _rigid([0, 0, 1], 2e-6, [0, 0, 0])[:3, :3], t)
+    lever = _pose(np.eye(3), [1.0e6, 0.0, 0.0])
+    return [
+        {"op": "setitem", "key": "a", "matrix": P0, "cls": "P_far"},
+        {"op": "setitem", "key": "a", "matrix": P1, "cls": "P_far_translation_5e-6_relative"},
+        {"op": "setitem", "key": "a", "matrix": P2, "cls": "P_far_turned_2e-6"},
+        {"op": "update", "to": "a", "from": "world", "kw": {"matrix": P1}, "cls": "P_far_translation_5e-6_relative"},
+        {"op": "update", "to": "a", "from": None, "kw": {"matrix": P2}, "cls": "P_far_turned_2e-6"},
+        {"op": "update", "to": "b", "from": "a", "kw": {"matrix": lever}, "cls": "lever_1e6"},
+        {"op": "get", "to": "b", "from": None},
+        {"op": "get", "to": "world", "from": "b"},
+        {"op": "copy"},
+    ]
+
+
+JOG_ROUTES = ("setitem", "update_matrix", "update_matrix_from", "update_kwargs", "load", "scene_camera_transform")
+JOG_CLASSES = ("far_translation", "small_turn_long_lever", "tiny_scene", "ordinary")
+
+
+def jog_plan(rng, route, cls):
+    """
+    A jog: the first pose of the frame `arm`, the keyword arguments of every further step (each CLOSE to
+    the pose before it, except in class `ordinary`), the frames hanging on it.  Poses close to the stored
+    one: `far_translation` - translation 1e2 .. 1e6 units out, moved by 1e-6 .. 1e-4 of itself;
+    `small_turn_long_lever` - a turn by 1e-9 .. 3e-6 rad of a frame that carries another one 1e4 .. 1e7
+    units out; `tiny_scene` - a scene modelled in units of 1e-9 (every matrix differs from every other by
+    a few 1e-9 absolutely).  Rotations are exact in double precision (outside the repair window of get()).
+    """
+    kwargs_route = route == "update_kwargs"
+    n = int(rng.integers(3, 7))
+    axis = _unit(rng.normal(size=3))
+    angle = float(rng.uniform(0.3, 2.5))
+
+    def kw_of(ang, t):
+        if kwargs_route:
+            return {"axis": axis.copy(), "angle": float(ang), "translation": [float(v) for v in t]}
+        M = _rigid(axis, float(ang), [float(v) for v in t])
+        return {"matrix": M}
+
+    steps = []
+    tool = _rigid(_unit(rng.normal(size=3)), float(rng.uniform(0.3, 2.5)), rng.uniform(-2, 2, size=3))
+    tip = _rigid(_unit(rng.normal(size=3)), float(rng.uniform(0.3, 2.5)), rng.uniform(-2, 2, size=3))
+    if cls == "far_translation":
+        t = rng.uniform(0.2, 1.0, size=3) * rng.choice([-1.0, 1.0], size=3) * 10.0 ** float(rng.uniform(2, 6))
+        for _ in range(n):
+            steps.append(kw_of(angle, t))
+            r = 10.0 ** float(rng.uniform(-6, -4))
+            t = t * (1.0 + r * rng.choice([-1.0, 1.0, 1.0], size=3))
+    elif cls == "small_turn_long_lever":
+        if rng.random() < 0.4:
+            angle = 0.0  # starts at the identity: a turn by 2e-9 is within 1e-8 of it absolutely
+        t = rng.uniform(-3, 3, size=3)
+        tool = _pose(np.eye(3), _unit(rng.normal(size=3)) * 10.0 ** float(rng.uniform(4, 7)))
+        # the lever has to stand across the axis for the turn to move its far end
+        tool[:3, 3] -= 0.9 * axis * float(axis @ tool[:3, 3])
+        for _ in range(n):
+            steps.append(kw_of(angle, t))
+            angle = angle + float(rng.choice([-1.0, 1.0])) * 10.0 ** float(rng.uniform(-9, -5.5))
+    elif cls == "tiny_scene":
+        angle = float(rng.choice([0.0, np.pi / 2]))
+        axis = np.array([0.0, 0.0, 1.0])
+        tool = _pose(np.eye(3), rng.integers(-9, 10, size=3) * 1e-9)
+        tip = _pose(np.eye(3), rng.integers(-9, 10, size=3) * 1e-9)
+        for _ in range(n):
+            steps.append(kw_of(angle, rng.integers(-9, 10, size=3) * 1e-9 + 1e-9))
+    else:
+        for _ in range(n):
+            axis = _unit(rng.normal(size=3))
+            steps.append(kw_of(float(rng.uniform(0.3, 2.5)), rng.uniform(-5, 5, size=3)))
+    return {"route": route, "cls": cls, "steps": [_jsonable_kw(s) for s in steps], "tool": tool.tolist(), "tip": tip.tolist(),
+            "silent": [bool(rng.random() < 0.25) for _ in steps], "repair": None if rng.random() < 0.2 else "default",
+            "base": "world" if rng.random() < 0.7 else "floor"}
+
+
+def jog(run, plan):
+    """
+    One history: base -> arm -> tool -> tip; the edge base->arm is set again and again through ONE route
+    (graph[arm] = M, update(arm, matrix=M), update(arm, base, matrix=M), update(arm, axis=, angle=,
+    translation=), an edge list loaded into the graph, scene.camera_transform = M), every answer that
+    depends on it is read after each step (some steps pass unobserved: small steps have to add up) and
+    compared with the plain numpy product of the matrices last set.  The width of the comparison follows
+    from the step: an answer may differ from the product by a tenth of what the step changed in it (plus
+    1e-12 of its largest entry for the arithmetic) - `a change to any edge is visible in every dependent
+    query immediately`.
+    """
+    from trimesh.scene.transforms import SceneGraph
+
+    route, cls, base = plan["route"], plan["cls"], plan["base"]
+    case = {"jog": plan}
+    exact = plan["repair"] is None
+    tool, tip = np.array(plan["tool"], dtype=np.float64), np.array(plan["tip"], dtype=np.float64)
+    steps = [_kw_from_json(s) for s in plan["steps"]]
+    scene = None
+    if route == "scene_camera_transform":
+        import trimesh
+
+        scene = trimesh.Scene(base_frame=base)
+        g = scene.graph
+        arm = scene.camera.name
+    else:
+        g = SceneGraph(base_frame=base, **({"repair_rigid": None} if exact else {}))
+        arm = "arm"
+
+    def send(kw):
+        kw = {k: (np.array(v, dtype=np.float64) if isinstance(v, np.ndarray) else v) for k, v in kw.items()}
+        if route == "setitem":
+            g[arm] = kw["matrix"]
+        elif route == "update_matrix":
+            g.update(arm, matrix=kw["matrix"])
+        elif route == "update_matrix_from":
+            g.update(arm, base, matrix=kw["matrix"])
+        elif route == "update_kwargs":
+            g.update(arm, **kw)
+        elif route == "load":
+            g.from_edgelist([[base, arm, {"matrix": kw["matrix"].tolist()}]])
+        else:
+            scene.camera_transform = kw["matrix"]
+
+    def expected(P):
+        W = {arm: P, "tool": P @ tool, "tip": P @ tool @ tip}
+        return {
+            ("get_edge", base, arm): W[arm], ("get_dependent", base, "tool"): W["tool"], ("get_dependent", base, "tip"): W["tip"],
+            ("get_inverse", arm, base): np.linalg.inv(W[arm]), ("get_inverse", "tip", base): np.linalg.inv(W["tip"]),
+            ("get_unaffected", arm, "tip"): tool @ tip,
+        }
+
+    bad = 0
+    E_old = None
+    P = None
+    try:
+        for i, kw in enumerate(steps):
+            P_new = kwargs_matrix(kw)
+            CTX["op"] = "jog"
+            try:
+                send(kw)
+                if i == 0:
+                    g.update("tool", arm, matrix=tool.copy())
+                    g.update("tip", "tool", matrix=tip.copy(), geometry="g1")
+            finally:
+                CTX["op"] = None
+            P = P_new
+            E = expected(P)
+            if i and plan["silent"][i] and i + 1 < len(steps):
+                run.count("jog_steps_unobserved")
+                E_old = E
+                continue
+            reads = []
+            with plain_reads():
+                for (q, frm, to) in E:
+                    reads.append((q, frm, to, observe_get(run, g, to, frm)))
+                reads.append(("getitem", base, "tool", observe_get(run, g, "tool", base, item=True)))
+                try:
+                    flat = g.to_flattened()
+                    reads.append(("to_flattened", base, "tip", ("ok", np.array(flat["tip"]["transform"], dtype=np.float64), None, False)))
+                except Exception as e:
+                    reads.append(("to_flattened", base, "tip", ("error", type(e).__name__)))
+                try:
+                    el = {(e[0], e[1]): e[2] for e in g.to_edgelist()}
+                    reads.append(("to_edgelist", base, arm, ("ok", np.array(el[(base, arm)].get("matrix", np.eye(4)), dtype=np.float64), None, False)))
+                except Exception as e:
+                    reads.append(("to_edgelist", base, arm, ("error", type(e).__name__)))
+                if scene is not None:
+                    try:
+                        reads.append(("scene.camera_transform", base, arm, ("ok", np.array(scene.camera_transform, dtype=np.float64), None, False)))
+                    except Exception as e:
+                        reads.append(("scene.camera_transform", base, arm, ("error", type(e).__name__)))
+            alias = {"getitem": ("get_dependent", base, "tool"), "to_flattened": ("get_dependent", base, "tip"),
+                     "to_edgelist": ("get_edge", base, arm), "scene.camera_transform": ("get_edge", base, arm)}
+            for q, frm, to, obs in reads:
+                k3 = alias.get(q, (q, frm, to))
+                En = E[k3]
+                run.count("jog_reads")
+                if obs[0] != "ok":
+                    sym = "raised_connected" if obs[0] == "raise" else "exception:%s" % obs[1]
+                else:
+                    R = obs[1]
+                    scale = max(1.0, float(np.abs(En).max()))
+                    effect = float(np.abs(En - E_old[k3]).max()) if E_old is not None else 0.0
+                    floor = 1e-12 * scale
+                    if R.shape != En.shape or not np.isfinite(R).all():
+                        sym = "wrong_matrix"
+                    elif effect < 1e3 * floor:
+                        # the first pose, or a step that does not show in this answer (or drowns in its
+                        # arithmetic): judged at the tolerance of the monitor
+                        sym = None if within(En, R, TOL) else "wrong_matrix"
+                    else:
+                        run.count("jog_reads_judged_at_a_tenth_of_the_step")
+                        err = float(np.abs(R - En).max())
+                        if err <= 0.1 * effect + floor:
+                            sym = None
+                        elif float(np.abs(R - E_old[k3]).max()) <= 0.1 * effect + floor:
+                            sym = "answer_is_the_pose_before_the_step"
+                        else:
+                            sym = "wrong_matrix"
+                if sym is not None:
+                    bad += 1
+                    run.violation("jog route=%s step=%s query=%s sym=%s%s" % (route, cls if i else "first", q, sym,
+                                                                            " option=repair_rigid_None" if exact and scene is None else ""),
+                                  "an edge was set to a new matrix and an answer that depends on it does not show the new matrix",
+                                  dict(case, step=i, query=q, frame_from=frm, frame_to=to,
+                                       observed=obs[1] if obs[0] == "ok" else obs, expected=En,
+                                       expected_before_the_step=None if E_old is None else E_old[k3]))
+                    break  # one key per jog: the first answer (in reading order) that is wrong
+            E_old = E
+            if bad:
+                break
+    except Exception as e:
+        bad += 1
+        run.violation("jog route=%s step=%s sym=exception:%s" % (route, cls, type(e).__name__), "a scene-graph edit raised",
+                      dict(case, error=repr(e)[:200]))
+    run.case("jog:%s:%s" % (route, cls), repr(plan["steps"]), plan["base"], repr(plan["repair"]), repr(plan["silent"]))
+    run.count("jogs")
+    return bad
+
+
 NAMES = ["world", "a", "b", "c", "d", "e"]
 GEOMS = ["g1", "g2", "g3"]
 
@@ -1944,6 +2200,38 @@ def _workload(run):
         if run.mine(j):
             deep_chain(run, k, e, kind, repair)
     run.note("round4_enumeration_seconds", round(run.elapsed() - t0, 1))
+    # ---- classes added in round 5 (cheap; the fixed part is seed independent)
+    t0 = run.elapsed()
+    # (e) graph[a] = M / update with a matrix close to the stored one, a frame on a long lever below
+    AA = assign_alphabet()
+    run.note("assign_alphabet", [str(op_digest(o)) for o in AA])
+    run_a = _Suffixed(run, "hist=assign_near_stored")
+    for prefix, lens in ((None, (1, 2, 3)),):
+        for n in lens:
+            for combo in itertools.product(range(len(AA)), repeat=n):
+                idx += 1
+                if not run.mine(idx):
+                    continue
+                if run.out_of_time(0.5):
+                    done_enum = False
+                    break
+                ops = [AA[i] for i in combo]
+                res = run_history(run_a, ops, idx, False, "enum", prefix=prefix)
+                if res is None:
+                    run.count("enumerated_histories_pruned_not_applicable")
+                    continue
+                record(run, "enum_assign_near_stored:len%d" % n, ops, res, prefix)
+    # (f) jogs: every route x every class of step, from a fixed generator
+    fixed = np.random.default_rng(20240905)
+    j = 0
+    for rep in range(2 if run.tier == "quick" else 6):
+        for route in JOG_ROUTES:
+            for cls in JOG_CLASSES:
+                plan = jog_plan(fixed, route, cls)
+                j += 1
+                if run.mine(j) and not run.out_of_time(0.5):
+                    jog(run, plan)
+    run.note("round5_enumeration_seconds", round(run.elapsed() - t0, 1))
     # the enumeration is the seed-independent core: it may use nearly the whole budget on a slow
     # machine (the sampled histories then get what is left); not finishing it is inconclusive
     frac = 0.93 if run.tier == "quick" else 0.5
@@ -2017,6 +2305,10 @@ def _workload(run):
     k = 0
     while not run.out_of_time(0.95):
         k += 1
+        if k % 5 == 0:
+            jog(run, jog_plan(run.rng, JOG_ROUTES[int(run.rng.integers(len(JOG_ROUTES)))],
+                              JOG_CLASSES[int(run.rng.integers(len(JOG_CLASSES)))]))
+            continue
         n = int(run.rng.integers(4, maxlen + 1))
         ops = random_history(run.rng, run.pyrng, n)
         r = run.pyrng.random()
@@ -2037,6 +2329,9 @@ def replay(run, case):
     try:
         if case.get("deep_chain"):
             deep_chain(run, **case["deep_chain"])
+            return
+        if case.get("jog"):
+            jog(run, case["jog"])
             return
         ops = [_op_from_json(o) for o in case["history"]]
         prefix = tuple(case["prefix"]) if case.get("prefix") else None
